@@ -28,7 +28,7 @@ func (ex *Exec) firstMatchFork(n int, matchAt func(i int) *Term) int {
 		return -1
 	}
 	// leading constant-false prefix can be skipped; stop at first constant-true
-	c, _ := ex.fork(func() ([]*Term, []uint64) {
+	c, _ := ex.forkE(func() ([]*Term, []uint64) {
 		var alts []*Term
 		var negs []*Term
 		for i := 0; i < n; i++ {
@@ -44,7 +44,7 @@ func (ex *Exec) firstMatchFork(n int, matchAt func(i int) *Term) int {
 		}
 		alts = append(alts, And(negs...))
 		return alts, nil
-	})
+	}, true)
 	if c == n {
 		return -1
 	}
